@@ -171,7 +171,7 @@ def check_frame(out, rng, fr, sess, pending):
   # minimum-norm solution is not scale equivariant - a degenerate cost effect, outside the claim)
   if rep3['scenario'] == scen and cond and cost_regression_ok:
     for c, f in (('estimate', b / a), ('lower', b / a), ('upper', b / a), ('precision', b / a), ('probability', 1.0),
-                 ('relative_lift', 1.0), ('relative_lift_lower', 1.0), ('incremental_cost', a), ('incremental_response', b)):
+                 ('relative_lift', 1.0), ('relative_lift_lower', 1.0), ('relative_lift_upper', 1.0), ('incremental_cost', a), ('incremental_response', b)):
       if not en.close(rep3[c], f * rep[c], 1e-7, 1e-12):
         out.oracle_violation(dict(facts, symptom='not-equivariant', column=c), dict(case, a=a, b=b),
                              f'{scen}: cost x{a}, response x{b}: column {c} goes {rep[c]} -> {rep3[c]}, expected x{f} = {f * rep[c]}')
